@@ -198,7 +198,9 @@ public:
 	void FixUnusedDefinedVars() {
 		for (auto i=num_vars(); i--; ) {
 			if (HasInitExpression(i) &&
-					! VarUsageRef(i)) {
+					! VarUsageRef(i) &&
+					GetInitExpression(i).GetCK()->IsUnused(
+						GetInitExpression(i).GetIndex())) {
 				// fix to 0, or to the nearest value within the bounds:
 				// the variable can still be an argument elsewhere
 				auto v = std::min(std::max(0.0, lb(i)), ub(i));
